@@ -141,6 +141,11 @@ def text_in_band(rng, tag: str, k: int, col_width: float) -> str:
     lo, hi = (k - 1 + 0.25) * col_width, (k - 0.25) * col_width
     words = ["lorem", "ipsum", "dolor", "sit", "amet", "elit", "sed", "do"]
     s = tag
+    if rng.random() < 0.3:
+        # wide glyphs only (no blanks): few characters, much width — a character count says nothing about the width
+        s += " "
+        while measure(s) < lo:
+            s += rng.choice("WMWM@%")
     while measure(s) < lo:
         s += " " + rng.choice(words)
     if measure(s) > hi:  # overshoot (narrow column): trim characters
@@ -188,6 +193,33 @@ def gen_doc(rng, tier):
                 i = j
             keyvals[kc] = inner
             outer = [a + "|" + b for a, b in zip(outer, inner)]
+    # sometimes one outer group value is so long that its heading text needs two lines (the estimate the code makes
+    # for heading rows: max(1, int(width("col: val | col: val") / table width) + 1)), well inside the two-line band
+    def heading_text(sel, i):
+        return " | ".join(f"{c}: {keyvals[c][i]}" for c in sel if str(keyvals[c][i]) != "-----")
+
+    W_TABLE = 6.25
+    # (only for key columns that are not displayed as data columns: a long value in a narrow data column is a row height)
+    pb_hidden = bool(page_by) and strategy != "page_by_np"
+    cands = ([subline_by] if subline_by else []) + ([page_by] if pb_hidden else [])
+    if cands and n and rng.random() < 0.3:
+        sel = rng.choice(cands)
+        kc0 = sel[0]
+        v0 = rng.choice(sorted(set(keyvals[kc0])))
+        idx = [i for i in range(n) if keyvals[kc0][i] == v0]
+        words = ["lorem", "ipsum", "dolor", "sit", "amet", "elit", "sed", "do"]
+        long_v, ok = v0, False
+        for _ in range(80):
+            long_v += " " + rng.choice(words)
+            for i in idx:
+                keyvals[kc0][i] = long_v
+            ws = [measure(heading_text(sel, i)) / W_TABLE for i in idx]
+            if min(ws) >= 1.3:
+                ok = max(ws) <= 1.7
+                break
+        if not ok:
+            for i in idx:
+                keyvals[kc0][i] = v0
     all_cols = keycols + cols
     # col widths: equal relative widths → each displayed column width
     removed = set()
@@ -256,8 +288,12 @@ def gen_doc(rng, tier):
     pch = chg(page_by) if page_by else [False] * n
     sch = chg(subline_by) if subline_by else [False] * n
     meta = []
+    def hrows(sel, i):
+        txt = heading_text(sel, i)
+        return max(1, int(measure(txt) / W_TABLE) + 1) if txt else 0
+
     for i in range(n):
-        t = lines[i] + (1 if (page_by and pch[i]) else 0) + (1 if (subline_by and sch[i]) else 0)
+        t = lines[i] + (hrows(page_by, i) if (page_by and pch[i]) else 0) + (hrows(subline_by, i) if (subline_by and sch[i]) else 0)
         meta.append([t, bool(page_by and pch[i]), bool(subline_by and sch[i])])
     np_eff = True if subline_by else bool(new_page)
     exp = dict(nrow=nrow, additional=additional, np=np_eff, rows=meta, strategy=strategy,
